@@ -184,7 +184,7 @@ def differential(ck, harness, driver, fields, tier, seed):
     d = os.path.join(work, "structured")
     os.makedirs(d)
     rc, out, _ = vlib.sh([harness, "cpucases", "-seed", str(seed), "-variants", str(sizes["variants"]), "-multi", str(sizes["multi"]),
-                          "-fields", ",".join(fields), "-out", d], timeout=3600)
+                          "-hist=false", "-fields", ",".join(fields), "-out", d], timeout=3600)
     if rc != 0:
         ck.oblige("harness cpucases", False, out[-800:])
     else:
